@@ -11,7 +11,7 @@ SD="$(cd "$1" && pwd)"; shift
 # between invocations (faster sweeps; the caller removes harness/target-* afterwards).
 WT=/tmp/hf-seeded-eval-${SEEDED_SLOT:-$$}
 git -C /repo worktree remove --force "$WT" >/dev/null 2>&1
-git -C /repo worktree add -q --detach "$WT" HEAD || exit 2
+git -C /repo worktree add -q --detach "$WT" "${SEEDED_BASE:-HEAD}" || exit 2
 trap 'git -C /repo worktree remove --force "$WT" >/dev/null 2>&1; [ "${SEEDED_KEEP_TARGET:-0}" = 1 ] || rm -rf "$HERE/harness/target-$(echo "$WT" | md5sum | cut -c1-8)"' EXIT
 if ! git -C "$WT" apply "$SD/patch.diff"; then echo "PATCH-DOES-NOT-APPLY $SD"; exit 2; fi
 if [ $# -eq 0 ]; then
